@@ -1,13 +1,31 @@
 """C18 — merge decision rules (breezy/merge.py: Merge3Merger._three_way,
 _lca_multi_way).
 
-T1: `_three_way` is transcribed from the source into Generated/C18.lean and
-proved equal to the model (`three_way_gen_eq`).
-T2: exhaustive over values {0..5}, 0..4 LCAs, both flag values (by
-equivariance under injective renaming this covers every equality pattern of
-up to 6 arguments), plus random cases with 5..9 LCAs over up to 12 values
-(repeated and many distinct LCA values) and an LCA-order-independence oracle.
-Oracle: the statement's laws evaluated directly on the real functions.
+T1: BOTH functions are transcribed from the current source into
+Generated/C18.lean (`threeWayGen`, `lcaMultiWayGen`: equality test, tuple
+unpacking, base-value filter, `set()`, `len(...) == 0/1`, `pop()`, membership
+cascade, flag and its default) and proved equal to the model for every value
+type, LCA list and flag (`three_way_gen_eq`, `lca_multi_way_gen_eq`,
+`lca_multi_way_gen_default`).  If the source no longer has a shape the
+translator understands, the generated file is replaced by a stub without the
+definitions, so a stale transcription can never back the T1 theorems.
+T2 (every run):
+  * full product over values {0..5} for base, 0..3 LCAs, other, this, both
+    flags, and for <= 2 LCAs also the flag left at its default (also catches
+    changes that are NOT equivariant, e.g. truthiness tests on the value 0);
+  * every equality pattern (restricted-growth string) of (base, lcas, other,
+    this) for 4..6 LCAs (thorough: 4..8), both flags — by equivariance under
+    injective renaming this is every input with that many LCAs; the real code
+    is called with the pattern renamed into heterogeneous hashable values
+    (None, str, bytes, tuples, bool/int, falsy values) as the callers pass;
+  * random cases with 7..11 (thorough 9..13) LCAs over up to 13 values (few / many distinct
+    LCA values), half of them renamed into the heterogeneous values.
+Oracle: the statement's laws evaluated directly on the real functions: swap
+law, tie-break, all-LCAs-equal => three-way, no LCAs => three-way, "unchanged
+never wins" for BOTH flag values, flag monotonicity (flag off = conflict or the
+flag-on verdict), flag default = True, each side on a different non-base LCA
+value = conflict, LCA values equal to the base value are ignored, LCA-order
+independence.
 
 Mutants this was built against: swapped 'this'/'other' in the last branch of
 _three_way; `this not in (base, other)` -> `this != base`; dropping the
@@ -17,45 +35,245 @@ Seeded (independent) changes: `this == base_val` added to the 'other wins'
 test (needs >= 2 distinct LCA values and THIS == BASE); early exit after three
 distinct LCA values while building the set (needs >= 4 distinct LCA values —
 missed by the first version, which stopped at 3 LCAs in the quick tier).
+Round 2 (T1 of _lca_multi_way, pattern enumeration, typed values): M1 `if not
+other` style truthiness test (`if other == this or not other`); M2 filter
+`lca_val != base_val` -> `lca_val is not base_val`-free variant `lca_val !=
+other`; M3 `unique_lca_vals = set(lca_vals)` (unfiltered); M4 default of
+allow_overriding_lca flipped to False (T1 only: `lca_multi_way_gen_default`
+no longer type-checks against the model's default); M5 the flag-off branch
+returning 'this' when THIS is new and OTHER is an LCA value only for >= 5 LCAs;
+H1 (harmless) `len(filtered_lca_vals) == 0` -> `not filtered_lca_vals` is NOT
+understood by the translator: T1 is recorded as unproved, T2/oracle stay
+clean, exit 0 (DESIGN §2.2 exception for transcription lemmas).
 """
+import ast
 import itertools
 import os
 import sys
 
 from vlib import env
 
+sys.path.insert(0, os.path.join(env.VERIF, "tools"))
+import extract as _ex  # noqa: E402  (tools/extract.py: find_func, DecisionTranslator, write_if_changed)
+
 THEOREMS = [
     "three_way_swap", "three_way_tie", "lca_tie", "lca_swap",
     "lca_eq_three_way_of_const", "lca_nil_eq_three_way",
     "three_way_unchanged_never_wins", "three_way_unchanged_never_wins'",
-    "lca_unchanged_never_wins", "lca_unchanged_never_wins'",
+    "lca_allow_false_conflict_or_eq", "lca_unchanged_never_wins", "lca_unchanged_never_wins'",
     "lca_eq_lcaOn", "lcaOn_perm", "lca_perm", "lca_two_lca_values_conflict",
+    "lca_allow_false_agree", "lca_allow_false_disagree", "lca_base_values_irrelevant",
 ]
-T1_EQUALITY_THEOREMS = ["three_way_gen_eq"]
-RULE = ("all assignments of values 0..D-1 to (base, lcas[0..k], other, this), k<=K, both "
-        "allow_overriding_lca values; non-trivial = not all arguments equal")
-ASSUMPTIONS = ["values are compared only with ==/!=/in (equivariance under injective renaming)"]
+T1_EQUALITY_THEOREMS = ["three_way_gen_eq", "mem_pySet", "pySet_eq_singleton", "lca_multi_way_gen_eq",
+                        "lca_multi_way_gen_default"]
+RULE = ("(a) all assignments of values 0..D-1 to (base, lcas[0..k], other, this), k<=K; (b) every equality pattern "
+        "(restricted-growth string) of (base, lcas, other, this) for K<k<=KP LCAs, the real code called on a renaming "
+        "into heterogeneous hashable values; (c) random cases with more LCAs; both allow_overriding_lca values "
+        "throughout; non-trivial = not all arguments equal")
+ASSUMPTIONS = [
+    "values are compared only with ==/!=/in and hashed by set(): == is an equivalence and hash is consistent with it "
+    "(true of the str/bytes/tuple/None/bool values the callers pass; exercised with such values on every run), so the "
+    "functions are equivariant under injective renaming of values",
+]
+TRUSTED = ["tools/extract.py + the LcaTranslator in this module (Python AST -> Lean term); `set` is read as a "
+           "duplicate-free list (`pySet`), `len(s) == 1 ... s.pop()` as a one-element pattern match"]
 
 SWAP = {"this": "other", "other": "this", "conflict": "conflict"}
+GEN_PATH = os.path.join(env.VERIF, "lean/BreezyVerif/Generated/C18.lean")
+
+# heterogeneous, pairwise unequal, hashable values of the kinds the callers of
+# the two functions pass (kind strings, names, file ids, parent ids, sha1s,
+# executable bits, (parent, name) pairs, None for "absent"), including falsy ones
+POOL = [None, "file", b"file-id", ("dir-id", "name"), True, 0, "", b"", (None, None), 2, "directory",
+        (b"sha1", False), 1.5, frozenset(), "symlink", (), b"\x00"]
+assert all(POOL[i] != POOL[j] for i in range(len(POOL)) for j in range(i)), "POOL values must be pairwise unequal"
+
+
+class LcaTranslator(_ex.DecisionTranslator):
+    """DecisionTranslator plus the statement forms `_lca_multi_way` uses:
+    fall-through out of an `if` body (the continuation is duplicated into the
+    branch), unpacking of a tuple parameter, a filtering list comprehension,
+    `set(list)`, `len(x) == n` (n = 0 and `not x` both read as `x = []`),
+    membership in a list/set variable, and `pop()`
+    on a set inside the branch that has just tested `len(set) == 1` (translated
+    to a one-element pattern match, the only reading under which the popped
+    element is determined).  Anything else raises ExtractError."""
+
+    def __init__(self, tuple_params=None, **kw):
+        super().__init__(**kw)
+        self.tuple_params = tuple_params or {}   # param name -> kinds of its components
+        self.kinds = {}                          # local name -> "val" | "list" | "set"
+        self.pop = None                          # [set name, lean name, uses] inside a len==1 branch
+
+    def _name(self, n):
+        return self.names.get(n, n)
+
+    def expr(self, e):
+        if (isinstance(e, ast.Call) and isinstance(e.func, ast.Attribute) and e.func.attr == "pop"
+                and isinstance(e.func.value, ast.Name) and not e.args and not e.keywords):
+            if self.pop is not None and self.pop[0] == e.func.value.id:
+                self.pop[2] += 1
+                return self.pop[1]
+            raise _ex.ExtractError("pop() outside a `len(set) == 1` branch: %s" % ast.unparse(e))
+        if isinstance(e, ast.Name) and self.pop is not None and e.id == self.pop[0]:
+            raise _ex.ExtractError("set %s used beside its pop()" % e.id)
+        return super().expr(e)
+
+    def cond(self, e):
+        if isinstance(e, ast.Compare) and len(e.ops) == 1:
+            l, op, r = e.left, e.ops[0], e.comparators[0]
+            if (isinstance(op, (ast.Eq, ast.NotEq)) and isinstance(l, ast.Call) and isinstance(l.func, ast.Name)
+                    and l.func.id == "len" and len(l.args) == 1 and not l.keywords and isinstance(l.args[0], ast.Name)
+                    and self.kinds.get(l.args[0].id) in ("list", "set")
+                    and isinstance(r, ast.Constant) and type(r.value) is int and r.value >= 0):
+                if r.value == 0:   # canonical emptiness test, shared with `not x` / `x`
+                    return "(%s %s [])" % (self._name(l.args[0].id), "=" if isinstance(op, ast.Eq) else "≠")
+                return "(%s.length %s %d)" % (self._name(l.args[0].id), "=" if isinstance(op, ast.Eq) else "≠", r.value)
+            if (isinstance(op, (ast.In, ast.NotIn)) and isinstance(r, ast.Name)
+                    and self.kinds.get(r.id) in ("list", "set")):
+                return "(%s %s %s)" % (self.expr(l), "∈" if isinstance(op, ast.In) else "∉", self._name(r.id))
+        # truthiness of a list / set variable
+        if isinstance(e, ast.Name) and self.kinds.get(e.id) in ("list", "set"):
+            return "(%s ≠ [])" % self._name(e.id)
+        if (isinstance(e, ast.UnaryOp) and isinstance(e.op, ast.Not) and isinstance(e.operand, ast.Name)
+                and self.kinds.get(e.operand.id) in ("list", "set")):
+            return "(%s = [])" % self._name(e.operand.id)
+        return super().cond(e)
+
+    def _bind(self, name, kind):
+        if name in self.kinds or name in self.names or name in self.tuple_params:
+            raise _ex.ExtractError("name %s bound twice" % name)
+        self.kinds[name] = kind
+
+    def _assign(self, s):
+        if len(s.targets) != 1:
+            raise _ex.ExtractError("unsupported assignment: %s" % ast.unparse(s))
+        tgt, val = s.targets[0], s.value
+        if isinstance(tgt, ast.Tuple) and isinstance(val, ast.Name) and val.id in self.tuple_params:
+            kinds = self.tuple_params[val.id]
+            if len(tgt.elts) != len(kinds) or not all(isinstance(x, ast.Name) for x in tgt.elts):
+                raise _ex.ExtractError("unsupported unpacking: %s" % ast.unparse(s))
+            for x, k in zip(tgt.elts, kinds):
+                self._bind(x.id, k)
+            return "let (%s) := %s" % (", ".join(x.id for x in tgt.elts), self._name(val.id))
+        if isinstance(tgt, ast.Name):
+            if (isinstance(val, ast.ListComp) and len(val.generators) == 1):
+                g = val.generators[0]
+                if (isinstance(g.target, ast.Name) and isinstance(val.elt, ast.Name) and val.elt.id == g.target.id
+                        and not g.is_async and len(g.ifs) == 1 and isinstance(g.iter, ast.Name)
+                        and self.kinds.get(g.iter.id) == "list" and g.target.id not in self.kinds):
+                    self.kinds[g.target.id] = "val"
+                    c = self.cond(g.ifs[0])
+                    del self.kinds[g.target.id]
+                    self._bind(tgt.id, "list")
+                    return "let %s := %s.filter (fun %s => decide %s)" % (tgt.id, self._name(g.iter.id), g.target.id, c)
+            if (isinstance(val, ast.Call) and isinstance(val.func, ast.Name) and val.func.id == "set"
+                    and len(val.args) == 1 and not val.keywords and isinstance(val.args[0], ast.Name)
+                    and self.kinds.get(val.args[0].id) == "list"):
+                self._bind(tgt.id, "set")
+                return "let %s := pySet %s" % (tgt.id, self._name(val.args[0].id))
+        raise _ex.ExtractError("unsupported assignment: %s" % ast.unparse(s))
+
+    def _pop_target(self, s):
+        """`if len(S) == 1: return f(.. S.pop() ..)` -> S, else None"""
+        t = s.test
+        if not (isinstance(t, ast.Compare) and len(t.ops) == 1 and isinstance(t.ops[0], ast.Eq)
+                and isinstance(t.left, ast.Call) and isinstance(t.left.func, ast.Name) and t.left.func.id == "len"
+                and len(t.left.args) == 1 and isinstance(t.left.args[0], ast.Name)
+                and self.kinds.get(t.left.args[0].id) == "set"
+                and isinstance(t.comparators[0], ast.Constant) and t.comparators[0].value == 1
+                and type(t.comparators[0].value) is int):
+            return None
+        name = t.left.args[0].id
+        pops = [n for n in ast.walk(ast.Module(body=s.body, type_ignores=[]))
+                if isinstance(n, ast.Attribute) and n.attr == "pop" and isinstance(n.value, ast.Name) and n.value.id == name]
+        return name if pops else None
+
+    def block(self, stmts, indent="  "):
+        stmts = [s for s in stmts if not (isinstance(s, ast.Expr) and isinstance(s.value, ast.Constant))]
+        if not stmts:
+            raise _ex.ExtractError("path without return")
+        s, rest = stmts[0], stmts[1:]
+        if isinstance(s, ast.Return):
+            if s.value is None:
+                raise _ex.ExtractError("bare return")
+            return self.expr(s.value)
+        if isinstance(s, ast.Assign):
+            saved = dict(self.kinds)
+            out = self._assign(s) + "\n" + indent + self.block(rest, indent)
+            self.kinds = saved
+            return out
+        if isinstance(s, ast.If):
+            body = s.body + ([] if _ex._all_return(s.body) else rest)
+            orelse = s.orelse + ([] if _ex._all_return(s.orelse) else rest)
+            sub = indent + "  "
+            pname = self._pop_target(s)
+            if pname is not None:
+                if not (len(s.body) == 1 and isinstance(s.body[0], ast.Return)) or self.pop is not None:
+                    raise _ex.ExtractError("unsupported use of pop(): %s" % ast.unparse(s)[:80])
+                self.pop = [pname, pname + "_pop", 0]
+                then = self.block(body, sub)
+                uses, self.pop = self.pop[2], None
+                if uses != 1:
+                    raise _ex.ExtractError("pop() used %d times" % uses)
+                els = self.block(orelse, sub)
+                return "(match %s with\n%s| [%s_pop] => %s\n%s| _ => %s)" % (self._name(pname), indent, pname, then, indent, els)
+            test = self.cond(s.test)
+            then = self.block(body, sub)
+            els = self.block(orelse, sub)
+            return "if %s then %s\n%selse %s" % (test, then, indent, els)
+        raise _ex.ExtractError("unsupported statement: %s" % ast.unparse(s)[:80])
+
+
+WINNER = {"this": "Winner.this", "other": "Winner.other", "conflict": "Winner.conflict"}
+
+
+def _const(v):
+    if type(v) is str and v in WINNER:
+        return WINNER[v]
+    raise _ex.ExtractError("unexpected constant %r" % (v,))
+
+
+def generate(repo):
+    path = os.path.join(repo, "breezy/merge.py")
+    f = _ex.find_func(path, "Merge3Merger._three_way")
+    g = _ex.find_func(path, "Merge3Merger._lca_multi_way")
+    for fn, params, ndefaults in ((f, ["base", "other", "this"], 0),
+                                  (g, ["bases", "other", "this", "allow_overriding_lca"], 1)):
+        a = fn.args
+        if ([x.arg for x in a.args] != params or a.vararg or a.kwarg or a.kwonlyargs or a.posonlyargs
+                or len(a.defaults) != ndefaults
+                or not all(isinstance(d, ast.Constant) and type(d.value) is bool for d in a.defaults)
+                or [ast.unparse(d) for d in fn.decorator_list] != ["staticmethod"]):
+            raise _ex.ExtractError("unexpected signature of %s" % fn.name)
+    # the flag's default is transcribed too (`lca_multi_way_gen_default` compares it with the model's)
+    default = "true" if g.args.defaults[0].value else "false"
+    names = {"this": "this_", "base": "base", "other": "other"}
+    tw = LcaTranslator(const=_const, names=dict(names)).block(f.body)
+    lca = LcaTranslator(const=_const, names=dict(names, bases="bases", allow_overriding_lca="allow_overriding_lca"),
+                        calls={"Merge3Merger._three_way": "threeWayGen"},
+                        tuple_params={"bases": ("val", "list")}).block(g.body)
+    return ("-- GENERATED by harness/checks/c18.py from breezy/merge.py — do not edit\n"
+            "import BreezyVerif.Model.C18\nnamespace BreezyVerif.C18\n"
+            "def threeWayGen {α : Type} [DecidableEq α] (base other this_ : α) : Winner :=\n  "
+            + tw + "\n\n"
+            "def lcaMultiWayGen {α : Type} [DecidableEq α] (bases : α × List α) (other this_ : α)\n"
+            "    (allow_overriding_lca : Bool := " + default + ") : Winner :=\n  "
+            + lca + "\nend BreezyVerif.C18\n")
 
 
 def extract(ctx):
-    sys.path.insert(0, os.path.join(env.VERIF, "tools"))
-    import extract as ex
-    f = ex.find_func(os.path.join(env.REPO, "breezy/merge.py"), "Merge3Merger._three_way")
-    params = [a.arg for a in f.args.args]
-    if params != ["base", "other", "this"]:
-        raise ex.ExtractError("unexpected parameters %r" % params)
-    tr = ex.DecisionTranslator(
-        const=lambda v: {"this": "Winner.this", "other": "Winner.other", "conflict": "Winner.conflict"}[v],
-        names={"this": "this_", "base": "base", "other": "other"})
-    body = tr.block(f.body)
-    text = ("-- GENERATED by harness/checks/c18.py from breezy/merge.py — do not edit\n"
-            "import BreezyVerif.Model.C18\nnamespace BreezyVerif.C18\n"
-            "def threeWayGen {α : Type} [DecidableEq α] (base other this_ : α) : Winner :=\n  "
-            + body + "\nend BreezyVerif.C18\n")
-    ex.write_if_changed(os.path.join(env.VERIF, "lean/BreezyVerif/Generated/C18.lean"), text)
-    return "regenerated threeWayGen from Merge3Merger._three_way"
+    try:
+        text = generate(env.REPO)
+    except Exception as e:
+        # never leave a stale transcription behind: the T1 module must not build
+        _ex.write_if_changed(GEN_PATH, (
+            "-- GENERATED by harness/checks/c18.py — transcription FAILED: %s\n"
+            "import BreezyVerif.Model.C18\n-- (no definitions: Props/C18T1.lean does not build against this file)\n"
+            % str(e).replace("\n", " ")[:300]))
+        raise
+    _ex.write_if_changed(GEN_PATH, text)
+    return "regenerated threeWayGen from Merge3Merger._three_way and lcaMultiWayGen from Merge3Merger._lca_multi_way"
 
 
 def _funcs():
@@ -63,44 +281,92 @@ def _funcs():
     return Merge3Merger._three_way, Merge3Merger._lca_multi_way
 
 
-def _oracle(ctx, tw, lca, kind, args, out):
-    """the property's own laws, on the real functions"""
+def _ren(off):
+    """value index -> the value handed to the real code"""
+    if off is None:
+        return lambda i: i
+    n = len(POOL)
+    return lambda i: POOL[(i + off) % n]
+
+
+def _call(tw, lca, kind, args, off):
+    r = _ren(off)
     if kind == "tw":
-        b, o, t = args
+        return tw(*[r(x) for x in args])
+    allow, b, ls, o, t = args
+    if allow is None:
+        # the callers' most common form: the flag left at its default
+        return lca((r(b), [r(x) for x in ls]), r(o), r(t))
+    return lca((r(b), [r(x) for x in ls]), r(o), r(t), allow_overriding_lca=allow)
+
+
+def _oracle(ctx, tw, lca, kind, args, out, off=None):
+    """the property's own laws, on the real functions (values renamed by `off`)"""
+    r = _ren(off)
+    case = dict(f=kind, args=args, off=off)
+    if out not in SWAP:
+        ctx.violation(case, "result %r is not one of this/other/conflict" % (out,))
+        return
+    if kind == "tw":
+        b, o, t = [r(x) for x in args]
         sw = tw(b, t, o)
         if o != t and sw != SWAP[out]:
-            ctx.violation(dict(f="tw", args=args), "swap law: _three_way%r=%s but swapped gives %s" % (tuple(args), out, sw))
+            ctx.violation(case, "swap law: _three_way%r=%s but swapped gives %s" % ((b, o, t), out, sw))
         if o == t and out != "this":
-            ctx.violation(dict(f="tw", args=args), "tie-break: both sides agree but result %s" % out)
+            ctx.violation(case, "tie-break: both sides agree but _three_way%r=%s" % ((b, o, t), out))
         if t == b and o != b and out != "other":
-            ctx.violation(dict(f="tw", args=args), "unchanged THIS wins/conflicts against changed OTHER: %s" % out)
+            ctx.violation(case, "unchanged THIS wins/conflicts against changed OTHER: _three_way%r=%s" % ((b, o, t), out))
         if o == b and t != b and out != "this":
-            ctx.violation(dict(f="tw", args=args), "unchanged OTHER wins/conflicts against changed THIS: %s" % out)
-    else:
-        allow, b, ls, o, t = args
-        sw = lca((b, ls), t, o, allow_overriding_lca=allow)
-        if o != t and sw != SWAP[out]:
-            ctx.violation(dict(f="lca", args=args), "swap law: _lca_multi_way%r=%s, swapped %s" % (tuple(args), out, sw))
-        if o == t and out != "this":
-            ctx.violation(dict(f="lca", args=args), "tie-break violated: %s" % out)
-        if ls and all(x == ls[0] for x in ls):
-            ref = tw(ls[0], o, t)
-            if out != ref:
-                ctx.violation(dict(f="lca", args=args), "all LCAs equal %r but lca=%s three_way=%s" % (ls[0], out, ref))
-        if not ls and out != tw(b, o, t):
-            ctx.violation(dict(f="lca", args=args), "no LCAs but differs from three-way")
-        anc = [b] + list(ls)
-        if allow and t in anc and o not in anc and out == "this":
-            ctx.violation(dict(f="lca", args=args), "unchanged THIS wins against changed OTHER")
-        if allow and o in anc and t not in anc and out == "other":
-            ctx.violation(dict(f="lca", args=args), "unchanged OTHER wins against changed THIS")
+            ctx.violation(case, "unchanged OTHER wins/conflicts against changed THIS: _three_way%r=%s" % ((b, o, t), out))
+        return
+    allow = args[0]
+    if allow is None:
+        # documented default: allow_overriding_lca=True
+        on = lca((r(args[1]), [r(x) for x in args[2]]), r(args[3]), r(args[4]), allow_overriding_lca=True)
+        if on != out:
+            ctx.violation(case, "_lca_multi_way without the flag gives %s, with allow_overriding_lca=True (the documented "
+                          "default) %s" % (out, on))
+        allow = True
+    b, o, t = r(args[1]), r(args[3]), r(args[4])
+    ls = [r(x) for x in args[2]]
+    desc = "_lca_multi_way((%r, %r), %r, %r, allow_overriding_lca=%r)=%s" % (b, ls, o, t, allow, out)
+    sw = lca((b, list(ls)), t, o, allow_overriding_lca=allow)
+    if o != t and sw != SWAP[out]:
+        ctx.violation(case, "swap law: %s, with THIS and OTHER exchanged %s" % (desc, sw))
+    if o == t and out != "this":
+        ctx.violation(case, "tie-break violated: %s" % desc)
+    if ls and all(x == ls[0] for x in ls):
+        ref = tw(ls[0], o, t)
+        if out != ref:
+            ctx.violation(case, "all LCAs equal %r but %s and _three_way=%s" % (ls[0], desc, ref))
+    if not ls and out != tw(b, o, t):
+        ctx.violation(case, "no LCAs but %s differs from _three_way=%s" % (desc, tw(b, o, t)))
+    anc = [b] + ls
+    if t in anc and o not in anc and out == "this":
+        ctx.violation(case, "unchanged THIS wins against changed OTHER: %s" % desc)
+    if o in anc and t not in anc and out == "other":
+        ctx.violation(case, "unchanged OTHER wins against changed THIS: %s" % desc)
+    if not allow:
+        on = lca((b, list(ls)), o, t, allow_overriding_lca=True)
+        if out != "conflict" and out != on:
+            ctx.violation(case, "flag monotonicity: %s but with allow_overriding_lca=True %s" % (desc, on))
+    if allow and o != t and o != b and t != b and o in ls and t in ls and out != "conflict":
+        ctx.violation(case, "each side picked a different (non-base) LCA value but no conflict: %s" % desc)
+    if b in ls:
+        nob = lca((b, [x for x in ls if x != b]), o, t, allow_overriding_lca=allow)
+        if nob != out:
+            ctx.violation(case, "LCA values equal to the base value are not ignored: %s, without them %s" % (desc, nob))
+    if len(ls) > 1:
+        rev = lca((b, ls[::-1]), o, t, allow_overriding_lca=allow)
+        if rev != out:
+            ctx.violation(case, "verdict depends on the order of the LCA values: %s, reversed LCAs %s" % (desc, rev))
 
 
-def _cases(D, K):
+def _product_cases(D, K):
     for b, o, t in itertools.product(range(D), repeat=3):
         yield "tw", [b, o, t]
     for k in range(K + 1):
-        for allow in (True, False):
+        for allow in (True, False) + ((None,) if k <= 2 else ()):
             for b in range(D):
                 for ls in itertools.product(range(D), repeat=k):
                     for o in range(D):
@@ -108,36 +374,67 @@ def _cases(D, K):
                             yield "lca", [allow, b, list(ls), o, t]
 
 
+def _rgs(n):
+    """all restricted-growth strings of length n = all equality patterns of n values"""
+    a = [0] * n
+
+    def rec(i, m):
+        if i == n:
+            yield list(a)
+            return
+        for v in range(m + 2):
+            a[i] = v
+            yield from rec(i + 1, max(m, v))
+    if n == 0:
+        yield []
+    else:
+        yield from rec(1, 0)
+
+
+def _pattern_cases(k):
+    for p in _rgs(k + 3):
+        for allow in (True, False):
+            yield "lca", [allow, p[0], p[1:k + 1], p[k + 1], p[k + 2]]
+
+
 def _line(kind, args):
     if kind == "tw":
         return "tw %d %d %d" % tuple(args)
     allow, b, ls, o, t = args
-    return "lca %s %d %s %d %d" % ("T" if allow else "F", b, ",".join(map(str, ls)) or "-", o, t)
+    # allow None = flag not passed: the model's (and the documented) default is true
+    return "lca %s %d %s %d %d" % ("T" if allow is None or allow else "F", b, ",".join(map(str, ls)) or "-", o, t)
 
 
-def run(ctx, D=None, K=None):
+def run(ctx, D=None, K=None, KP=None):
     tw, lca = _funcs()
     D = D or ctx.pick(6, 7)
-    K = K if K is not None else ctx.pick(4, 4)
+    K = K if K is not None else 3
+    KP = KP if KP is not None else ctx.pick(6, 8)
     cases, lines, outs = [], [], []
-    for kind, args in _cases(D, K):
-        if kind == "tw":
-            out = tw(*args)
-        else:
-            allow, b, ls, o, t = args
-            out = lca((b, list(ls)), o, t, allow_overriding_lca=allow)
-        _oracle(ctx, tw, lca, kind, args, out)
-        flat = [x for x in args if isinstance(x, int) and not isinstance(x, bool)] + (args[2] if kind == "lca" else [])
-        ctx.case([kind] + args, nontrivial=len(set(flat)) > 1)
-        ctx.count(kind + ":" + str(out))
-        cases.append([kind] + args)
+
+    def one(kind, args, off, tag):
+        out = _call(tw, lca, kind, args, off)
+        _oracle(ctx, tw, lca, kind, args, out, off)
+        flat = (args if kind == "tw" else [args[1]] + args[2] + args[3:])
+        case = [kind] + args + ([] if off is None else [dict(off=off)])
+        ctx.case(case, nontrivial=len(set(flat)) > 1)
+        ctx.count("%s:%s" % (tag, out))
+        cases.append(case)
         lines.append(_line(kind, args))
         outs.append(str(out))
+
+    for kind, args in _product_cases(D, K):
+        one(kind, args, None, kind)
+    n = 0
+    for k in range(K + 1, KP + 1):
+        for kind, args in _pattern_cases(k):
+            n += 1
+            one(kind, args, n % len(POOL), "lca-pattern-k%d" % k)
     # beyond the exhaustive bound: random cases with many LCAs, many distinct and
     # repeated values (the theorems are unbounded; this ties the code there too)
     rng = ctx.rng
-    for _ in range(ctx.pick(60000, 400000)):
-        k = rng.randint(K + 1, 9)
+    for _ in range(ctx.pick(50000, 300000)):
+        k = rng.randint(KP + 1, KP + 5)
         dom = rng.randint(2, 11)
         b = rng.randrange(dom)
         ls = [rng.randrange(dom) for _ in range(k)]
@@ -147,41 +444,40 @@ def run(ctx, D=None, K=None):
             ls = [rng.choice(pool) for _ in range(k)]
         o = rng.choice(ls + [b, rng.randrange(dom), dom])
         t = rng.choice(ls + [b, rng.randrange(dom), dom + 1])
-        allow = rng.random() < 0.7
+        allow = rng.choice([True, True, True, False, False, None])
+        off = rng.randrange(len(POOL)) if rng.random() < 0.5 else None
         args = [allow, b, ls, o, t]
-        out = lca((b, list(ls)), o, t, allow_overriding_lca=allow)
-        _oracle(ctx, tw, lca, "lca", args, out)
+        one("lca", args, off, "lca-random")
         # order independence: the verdict may not depend on the order of the LCAs
         perm = list(ls)
         rng.shuffle(perm)
-        out2 = lca((b, perm), o, t, allow_overriding_lca=allow)
-        if out2 != out:
-            ctx.violation(dict(f="lca", args=args), "verdict depends on the order of the LCA values: %r -> %s, %r -> %s" % (ls, out, perm, out2))
-        ctx.case(["lca"] + args, nontrivial=len(set(ls + [b, o, t])) > 1)
-        ctx.count("lca-random:" + str(out))
-        cases.append(["lca"] + args)
-        lines.append(_line("lca", args))
-        outs.append(str(out))
+        out2 = _call(tw, lca, "lca", [allow, b, perm, o, t], off)
+        if out2 != outs[-1]:
+            ctx.violation(dict(f="lca", args=args, off=off),
+                          "verdict depends on the order of the LCA values: %r -> %s, %r -> %s" % (ls, outs[-1], perm, out2))
     ctx.diff(cases, lines, outs)
+    # exhaustive in the sense of RULE (a)+(b): every input with <= KP LCAs up to injective renaming
     ctx.exhaustive = True
-    ctx.extra["domain"] = dict(values=D, max_lcas=K, random_lcas_up_to=9)
+    ctx.extra["domain"] = dict(full_product_values=D, full_product_max_lcas=K, all_equality_patterns_up_to_lcas=KP,
+                               random_lcas_up_to=KP + 5, typed_value_pool=len(POOL))
 
 
 def widen(ctx):
-    run(ctx, D=7, K=4)
+    run(ctx, D=7, K=3, KP=8)
 
 
 def replay(ctx, case):
     tw, lca = _funcs()
     if isinstance(case, dict):
-        kind, args = case["f"], case["args"]
+        kind, args, off = case["f"], case["args"], case.get("off")
     else:
-        kind, args = case[0], case[1:]
-    if kind == "tw":
-        out = tw(*args)
-    else:
-        allow, b, ls, o, t = args
-        out = lca((b, list(ls)), o, t, allow_overriding_lca=allow)
-    _oracle(ctx, tw, lca, kind, args, out)
+        kind, args, off = case[0], list(case[1:]), None
+        if args and isinstance(args[-1], dict):
+            off = args.pop()["off"]
+    out = _call(tw, lca, kind, args, off)
+    _oracle(ctx, tw, lca, kind, args, out, off)
     m = ctx.model([_line(kind, args)])[0]
-    return dict(case=case, impl=out, model=m, oracle_failures=[v["what"] for v in ctx.violations])
+    r = _ren(off)
+    real = [r(x) if type(x) is int else ([r(y) for y in x] if isinstance(x, list) else x) for x in args]
+    return dict(case=case, real_arguments=repr(real), impl=out, model=m,
+                oracle_failures=[v["what"] for v in ctx.violations])
